@@ -352,7 +352,13 @@ pub fn check_event(ev: &Event, st: &mut Stats, out: &mut Vec<Viol>) {
         match op {
             Op::PeekLru | Op::GetLru => { let e = pre.ents.first(); if (o.k, o.v) != (e.map(|e| e.kuid), e.map(|e| e.vuid)) { v(out, "C05", "peek-end", format!("{} returned {:?}, the least-recently-used entry is {:?}", op.to_text(), (o.k, o.v), e.map(|e| (e.kuid, e.vuid)))); } }
             Op::PeekMru => { let e = pre.ents.last(); if (o.k, o.v) != (e.map(|e| e.kuid), e.map(|e| e.vuid)) { v(out, "C05", "peek-end", format!("{} returned {:?}, the most-recently-used entry is {:?}", op.to_text(), (o.k, o.v), e.map(|e| (e.kuid, e.vuid)))); } }
-            Op::Debug => { if let Some(d) = &o.debug { let parsed = parse_debug(d); let walk: Vec<(u32, u64, u64)> = pre.ents.iter().map(|e| (e.id, e.kuid, e.vuid)).collect(); if parsed != Some(walk.clone()) { v(out, "C05", "debug-order", format!("Debug output {} does not list the entries in recency order {:?}", d, walk)); } st.count("debug_compared"); } }
+            // C05 does not say in which order Debug prints (only that formatting does not change the order): the output must
+            // show exactly the entries held; whether it lists them in recency order is recorded, not judged
+            Op::Debug => { if let Some(d) = &o.debug { let parsed = parse_debug(d); let walk: Vec<(u32, u64, u64)> = pre.ents.iter().map(|e| (e.id, e.kuid, e.vuid)).collect();
+                if parsed == Some(walk.clone()) { st.count("debug_in_recency_order"); }
+                let mut a = parsed.clone().unwrap_or_default(); a.sort_unstable(); let mut b = walk.clone(); b.sort_unstable();
+                if parsed.is_none() || a != b { v(out, "C04", "debug-contents", format!("Debug output {} does not show exactly the entries held {:?}", d, walk)); }
+                st.count("debug_compared"); } }
             _ => {}
         }
         if sp.promoted.is_some() { st.countf(format_args!("promote_{}_pos{}", op.kind(), pc)); }
